@@ -122,7 +122,7 @@ def struct_alts(s):
                 yield ["D", [[k2, a] if j == i else [k2, copy.deepcopy(y)] for j, (k2, y) in enumerate(s[1])]]
     elif s[0] == "task":
         yield ["const", 0]
-    elif s[0] in ("item", "ditem") or s[0] in ("lazy", "slazy", "errfut", "bad", "nonef", "ref", "afn", "excval", "pfn", "acall"):
+    elif s[0] in ("item", "ditem") or s[0] in ("lazy", "slazy", "errfut", "bad", "nonef", "ref", "afn", "excval", "pfn", "acall", "tool"):
         yield ["const", 0]
 
 
